@@ -719,7 +719,10 @@ def oracle_shift_general(case):
                                                                float(wx[i]), float(wy[i]), th, coefs))
     if th is None:
         sh0 = _shifts(case, 0.0, coefs, mask).to(torch.float64)
-        if not float((sh - sh0).abs().max()) <= 1e-6 * scale:
+        # same float32 grid, but torch's arctan2 takes its vector or its scalar path depending on the strides of the
+        # broadcast operands and the two differ by one ulp of phi (2.4e-7): times the angular order (<= 6) that is up to
+        # 3e-6 of the scale, so 1e-5 and not 1e-6 (false alarm of the thorough tier with seed 1)
+        if not float((sh - sh0).abs().max()) <= 1e-5 * scale:
             return ("shift-rotation-none", "_return_lateral_shifts with rotation_angle=None differs from rotation_angle=0.0")
     return None
 
